@@ -1,7 +1,7 @@
 import CalicoVerif.Model.C06Parser
 /-!
 C06 helper definitions: induction principle for `Node`, token-level printer
-`toks`, the parser's negation collapsing `collapse`, well-formedness `WF`.
+`toks`, well-formedness `WF`.
 -/
 namespace CalicoVerif.C06
 
@@ -33,147 +33,8 @@ decreasing_by
   all_goals simp_wf
   all_goals first | omega | (have := List.sizeOf_lt_of_mem hn; omega)
 
-/-! ### negation collapsing done by `parseOperation` -/
-
 /-- `if negated then &NotNode{sel} else sel`. -/
 def wrapNot (b : Bool) (n : Node) : Node := if b then .not n else n
-
-mutual
-/-- What `parseOperation` builds from the canonical text of a node when it has
-already seen an odd (`b = true`) / even number of `!`: stacked `!` are folded
-into one boolean. -/
-def collapseNeg : Bool → Node → Node
-  | b, .not n => collapseNeg (!b) n
-  | b, .and ns => wrapNot b (.and (collapseList ns))
-  | b, .or ns => wrapNot b (.or (collapseList ns))
-  | b, .eq l v => wrapNot b (.eq l v)
-  | b, .ne l v => wrapNot b (.ne l v)
-  | b, .contains l v => wrapNot b (.contains l v)
-  | b, .startsWith l v => wrapNot b (.startsWith l v)
-  | b, .endsWith l v => wrapNot b (.endsWith l v)
-  | b, .inSet l vs => wrapNot b (.inSet l vs)
-  | b, .notInSet l vs => wrapNot b (.notInSet l vs)
-  | b, .has l => wrapNot b (.has l)
-  | b, .all => wrapNot b .all
-  | b, .global => wrapNot b .global
-def collapseList : List Node → List Node
-  | [] => []
-  | n :: ns => collapseNeg false n :: collapseList ns
-end
-
-/-- The node obtained by re-parsing the canonical text. -/
-def collapse (n : Node) : Node := collapseNeg false n
-
-theorem collapseList_eq_map (ns : List Node) : collapseList ns = ns.map collapse := by
-  induction ns with
-  | nil => rfl
-  | cons n ns ih => simp [collapseList, collapse, ih]
-
-/-- "the operand of a Not is not a Not", everywhere in the tree. -/
-def Node.isNot : Node → Bool
-  | .not _ => true
-  | _ => false
-
-mutual
-def NoNestedNot : Node → Prop
-  | .not n => n.isNot = false ∧ NoNestedNot n
-  | .and ns => NoNestedNotList ns
-  | .or ns => NoNestedNotList ns
-  | _ => True
-def NoNestedNotList : List Node → Prop
-  | [] => True
-  | n :: ns => NoNestedNot n ∧ NoNestedNotList ns
-end
-
-theorem noNestedNotList_iff (ns : List Node) : NoNestedNotList ns ↔ ∀ n ∈ ns, NoNestedNot n := by
-  induction ns with
-  | nil => simp [NoNestedNotList]
-  | cons n ns ih => simp [NoNestedNotList, ih]
-
-theorem collapseNeg_of_not_isNot {n : Node} (h : n.isNot = false) (b : Bool) :
-    collapseNeg b n = wrapNot b (collapseNeg false n) := by
-  cases n <;> simp_all [collapseNeg, wrapNot, Node.isNot]
-
-/-- Without a nested negation, re-parsing gives the node back. -/
-theorem collapse_eq_self : ∀ t, NoNestedNot t → collapse t = t := by
-  intro t
-  induction t using Node.ind with
-  | not n ih =>
-    intro h
-    simp only [NoNestedNot] at h
-    unfold collapse at *
-    rw [collapseNeg, Bool.not_false, collapseNeg_of_not_isNot h.1, ih h.2]
-    rfl
-  | and ns ih =>
-    intro h
-    simp only [NoNestedNot, noNestedNotList_iff] at h
-    simp only [collapse, collapseNeg, wrapNot, collapseList_eq_map, Bool.false_eq_true, if_false]
-    congr 1
-    exact (List.map_congr_left (fun n hn => ih n hn (h n hn))).trans (List.map_id _)
-  | or ns ih =>
-    intro h
-    simp only [NoNestedNot, noNestedNotList_iff] at h
-    simp only [collapse, collapseNeg, wrapNot, collapseList_eq_map, Bool.false_eq_true, if_false]
-    congr 1
-    exact (List.map_congr_left (fun n hn => ih n hn (h n hn))).trans (List.map_id _)
-  | _ => intros; rfl
-
-/-! ### evaluation is invariant under collapsing -/
-
-theorem evalAll_eq (labels : Labels) (ns : List Node) :
-    Node.evalAll labels ns = ns.all (·.eval labels) := by
-  induction ns with
-  | nil => rfl
-  | cons n ns ih => simp [Node.evalAll, ih]
-
-theorem evalAny_eq (labels : Labels) (ns : List Node) :
-    Node.evalAny labels ns = ns.any (·.eval labels) := by
-  induction ns with
-  | nil => rfl
-  | cons n ns ih => simp [Node.evalAny, ih]
-
-theorem all_congr_mem {α} {f g : α → Bool} : ∀ {l : List α}, (∀ a ∈ l, f a = g a) → l.all f = l.all g
-  | [], _ => rfl
-  | a :: l, h => by
-    simp only [List.all_cons, h a (List.mem_cons_self ..)]
-    rw [all_congr_mem (fun x hx => h x (List.mem_cons_of_mem _ hx))]
-
-theorem any_congr_mem {α} {f g : α → Bool} : ∀ {l : List α}, (∀ a ∈ l, f a = g a) → l.any f = l.any g
-  | [], _ => rfl
-  | a :: l, h => by
-    simp only [List.any_cons, h a (List.mem_cons_self ..)]
-    rw [any_congr_mem (fun x hx => h x (List.mem_cons_of_mem _ hx))]
-
-theorem eval_wrapNot (labels : Labels) (b : Bool) (n : Node) :
-    (wrapNot b n).eval labels = (b ^^ n.eval labels) := by
-  cases b <;> simp [wrapNot, Node.eval]
-
-theorem eval_collapseNeg (labels : Labels) : ∀ t b,
-    (collapseNeg b t).eval labels = (b ^^ t.eval labels) := by
-  intro t
-  induction t using Node.ind with
-  | not n ih => intro b; rw [collapseNeg, ih]; cases b <;> simp [Node.eval]
-  | and ns ih =>
-    intro b
-    rw [collapseNeg, eval_wrapNot]
-    congr 1
-    simp only [Node.eval, evalAll_eq, collapseList_eq_map, List.all_map]
-    apply all_congr_mem
-    intro n hn
-    simpa [collapse] using ih n hn false
-  | or ns ih =>
-    intro b
-    rw [collapseNeg, eval_wrapNot]
-    congr 1
-    simp only [Node.eval, evalAny_eq, collapseList_eq_map, List.any_map]
-    apply any_congr_mem
-    intro n hn
-    simpa [collapse] using ih n hn false
-  | _ => intro b; rw [collapseNeg, eval_wrapNot]
-
-/-- Collapsing stacked negations preserves the meaning on every label map. -/
-theorem eval_collapse (labels : Labels) (t : Node) : (collapse t).eval labels = t.eval labels := by
-  simp [collapse, eval_collapseNeg]
 
 /-! ### token-level printer -/
 
@@ -198,7 +59,7 @@ def toks : Node → List Token
   | .has l => [.has l]
   | .all => [.all]
   | .global => [.global]
-  | .not n => .not :: toks n
+  | .not n => if n.isNot then .not :: .lParen :: (toks n ++ [.rParen]) else .not :: toks n
   | .and ns => .lParen :: (joinToks .and ns ++ [.rParen])
   | .or ns => .lParen :: (joinToks .or ns ++ [.rParen])
 def joinToks (sep : Token) : List Node → List Token
